@@ -134,7 +134,7 @@ def run(ctx):
             news.append(b.name)
         for bb, i, s in r.field_writes(b, r.INNER, r.SEM):
             ctx.ob('R06.2', 'pool semaphore never re-assigned', False, ctx.where(b, s.line), '', construct='sem-reassigned:' + b.name)
-    ctx.ob('R06.2', 'the pool semaphore is created only when the pool is built', news == ['deadpool::managed::Pool::from_builder'], '', str(news), construct='sem-new')
+    ctx.ob('R06.2', 'the pool semaphore is created only when the pool is built', r.CONSTRUCTOR is not None and news == [r.CONSTRUCTOR.name], '', str(news), construct='sem-new')
 
     # ---- R06.3 closed => PoolError::Closed ---------------------------------------------
     cons = pool_error_constructions(ctx, r)
